@@ -116,6 +116,11 @@ class Unit:
             self.enum_decls[n.get('name') or n['id']] = lst
         elif k == 'TypedefDecl':
             self.typedefs[n['name']] = n.get('type', {})
+            # typedef struct {...} Name; -> the anonymous record is reachable through the typedef name
+            for c in n.get('inner', []):
+                otd = c.get('ownedTagDecl') if isinstance(c, dict) else None
+                if otd and otd.get('kind') == 'RecordDecl':
+                    self.__dict__.setdefault('typedef_record', {})[n['name']] = otd.get('id')
             # typedef enum {...} Name; -> anonymous enum gets the typedef name
             for c in n.get('inner', []):
                 pass
